@@ -1203,7 +1203,7 @@ func newGen(r *prng.R, run *Run) *Gen {
 }
 
 func (g *Gen) finishEntropy() {
-	g.run.Entropy = entropy.Script{Stream: g.entropy, Hex: hex.EncodeToString(g.entropy), Events: g.events}
+	g.run.Entropy = entropy.Script{Stream: g.entropy, Hex: hex.EncodeToString(g.entropy), Events: g.events, Endless: true}
 }
 
 // GenC10: one task, long aliased histories, heap memory, fault-free entropy.
